@@ -1,7 +1,7 @@
 """shared by C02 / C03: numeric cases on the real optimizers and their Coq-side evaluation"""
 from py import vlib
 
-MODELS = ['mlp', 'linear_nobias', 'seq', 'conv', 'emb', 'norm', 'gn']
+MODELS = ['mlp', 'linear_nobias', 'seq', 'conv', 'emb', 'norm', 'gn', 'sublinear']
 CLIPS = ['flat', 'per_layer', 'adaptive', 'ghost']
 
 
@@ -25,7 +25,7 @@ def gen_step(ctx, n):
         nn_ = r.choice([1, 2, 3, 4])
         out.append({'seed': r.randint(0, 10**6), 'model': r.choice(MODELS), 'clipping': clip, 'red': r.choice(['mean', 'sum']),
                     'C': r.choice([0.05, 1.0, 4.0, 1e6]), 'n': nn_, 'nm': 1.0 if clip == 'adaptive' else r.choice([0.0, 0.7]), 'B': r.choice([nn_, 5]),
-                    'wscale': r.choice([0.3, 1.0]), 'xscale': r.choice([1e-2, 1.0, 10.0]), 'tscale': r.choice([1e-2, 1.0, 10.0])})
+                    'split': r.choice([1, 1, 2, 3]), 'wscale': r.choice([0.3, 1.0]), 'xscale': r.choice([1e-2, 1.0, 10.0]), 'tscale': r.choice([1e-2, 1.0, 10.0])})
     return out
 
 
